@@ -328,6 +328,10 @@ theorem gradient_continuous_correct_tau (pre post : List (Comp ℝ)) (a tau0 t t
 -- non-vacuity: the clip and mask hypotheses hold for the `Admissible` instance above with `tmax = 10`
 example : (1.0e-14 : ℝ) ≤ 0.3 ∧ (10 : ℝ) / 0.5 < 1.0e10 := by norm_num
 
+-- the clip hypothesis holds on the whole amplitude interval the optimiser searches, `[1e-9, 1 − 1e-9]`
+-- (`_exponential_mle_bounds`): a rare component sitting on the amplitude bound is covered by the two theorems above
+example (a : ℝ) (h : (1.0e-9 : ℝ) ≤ a) : (1.0e-14 : ℝ) ≤ a := le_trans (by norm_num) h
+
 /-
   ext `gradient_discrete_correct` — NOT PROVED (stated, left outside):
     for the discretised model (`o.step = some Δ`, `Δ > 0`, `tmin − Δ < tmax`), under the same clip/mask
